@@ -14,7 +14,7 @@ RULE = ('E1 enumeration of LAT=1 decks: unit cell 1D/2D/3D, orthogonal or skew, 
         'listing order inside each pair and order of the pairs, index ranges incl. negative / degenerate / '
         'trailing trivial ones, ALL fill arrays over {0, own universe, u2, u3} for the small sizes, FILL=n '
         'with --lattice, fill transformation (none, translation, 90deg rotation; inline, number, starred), '
-        'lattice cell TRCL, container larger than / equal to / cutting the declared range; oracle: reference '
+        'lattice cell TRCL, container larger than / equal to / cutting the declared range, inlining options; oracle: reference '
         'lattice semantics (element = unit cell + i a1 + j a2 + k a3, positive index across the first-listed '
         'surface of the pair, array read first-index-fastest, universe frame = translate(L_ijk) o T_fill) at '
         'complete plane-arrangement witnesses; non-trivial = at least two different owners; distinct = '
@@ -216,6 +216,10 @@ def make_deck(ch, dims, skew, by_rpp, arr_mode):
         d.options = ['--lattice', '20,' + ','.join('%d:%d' % r for r in rng_card)]
         if replica == 'like':
             d.options += ['--lattice', '21,' + ','.join('%d:%d' % r for r in lat2.ranges)]
+    # the element volumes must not depend on how cell definitions are inlined
+    d.options = list(getattr(d, 'options', None) or []) + ch.choose('inlining', [
+        [], ['--always-inline-filling'], ['--always-inline-filled'],
+        ['--always-inline-filling', '--always-inline-filled'], ['--max-inline-score', '0']])
     return d
 
 
